@@ -411,7 +411,24 @@ static void check(Ctx &ctx, const Val &doc, const Val &patch, bool copy_form, ui
 	PatchOutcome want = patch_apply(ref, patch);
 	if (want.undefined)
 	{
-		ctx.label("skipped_root_null_or_absent");
+		// neither the RFC nor json_patch.h says what the result is: no comparison - but the call still has to be
+		// memory-safe, leak-free (the case's leak scope) and must leave the patch document alone
+		ctx.label("root_null_or_absent_safety_only");
+		json_object *jd = build(doc), *jp = build(patch);
+		Val pb = dump(jp);
+		json_object *b = copy_form ? nullptr : jd;
+		struct json_patch_error pe;
+		memset(&pe, 0x5a, sizeof pe);
+		(void)json_patch_apply(copy_form ? jd : nullptr, jp, &b, &pe);
+		Val pa = dump(jp);
+		std::string w;
+		bool same = same_val(pb, pa, w, DBL_BITS);
+		json_object_put(jp);
+		if (copy_form)
+			json_object_put(jd);
+		json_object_put(b);
+		if (!same)
+			ctx.fail("patch-modified", "the patch document was modified: " + w);
 		return;
 	}
 	json_object *jdoc = build(doc), *jpatch = build(patch);
